@@ -1,6 +1,7 @@
 import Driver.Util
 import Driver.Ssbs
 import ESV.Comp.Backend
+import ESV.SsbScript.Closed
 open Lean Drv ESV ESV.Comp
 
 
@@ -125,6 +126,11 @@ def handle (op : String) (j : Json) : R Json := do
   | "comp.backend" =>
     let rs ← (← asArr (← fld j "routines")).mapM fun r => do (← asArr r).mapM itemOf
     pure (resultTo (backend rs) [] [])
+  | "comp.ssbs_compile" =>
+    -- the SsbScript compiler model with the routine id check of repo commit 418dd8e in front
+    match ESV.SsbScript.Cl.compileRawChecked (← (← asArr (← fld j "ast")).mapM Drv.SsbsD.routineOf) with
+    | .ok o => pure (Json.mkObj [("out", Drv.SsbsD.outTo o)])
+    | .error e => pure (Drv.SsbsD.errTo e)
   | _ => throw s!"unknown op {op}"
 
 end Drv.CompD
